@@ -1,12 +1,14 @@
 /-
 Helper lemmas for C11 (part 2): what a query knows — invariants of one query of the interleaving machine
-with the extracted orders (`Cfg.real`): no loss (snapshots and result), the shape of its result, keys of
+with the extracted orders (`(Cfg.of d)`): no loss (snapshots and result), the shape of its result, keys of
 each snapshot pairwise distinct.
 -/
 import SigModel.Lemmas.C11
 set_option linter.unusedSimpArgs false
 namespace SigModel.Lemmas.C11
 open SigModel.Conc
+
+variable {d : Bool}
 
 /-! ### lists -/
 
@@ -83,16 +85,91 @@ theorem nodup_flatMap_blocksOf (l : List (Seg × Nat)) (h : (l.map Prod.fst).Nod
     rw [List.mem_map]
     exact ⟨r', hr', by rw [← hb'.1, ha.1]⟩
 
+theorem mem_of_mem_dedupKey (l : List (Seg × Nat)) (r : Seg × Nat) (h : r ∈ dedupKey l) : r ∈ l := by
+  induction l with
+  | nil => simp [dedupKey] at h
+  | cons a l ih =>
+    simp only [dedupKey] at h
+    by_cases ha : (dedupKey l).any (fun r' => r'.1 = a.1)
+    · simp only [ha, if_true] at h; exact List.mem_cons_of_mem _ (ih h)
+    · simp only [ha] at h
+      rcases List.mem_cons.mp h with h1 | h1
+      · subst h1; exact List.mem_cons_self
+      · exact List.mem_cons_of_mem _ (ih h1)
+
+/-- every key of the list survives the de-duplication -/
+theorem key_mem_dedupKey (l : List (Seg × Nat)) (g : Seg) (h : ∃ r ∈ l, r.1 = g) :
+    ∃ r ∈ dedupKey l, r.1 = g := by
+  induction l with
+  | nil => simp at h
+  | cons a l ih =>
+    simp only [dedupKey]
+    by_cases ha : (dedupKey l).any (fun r' => r'.1 = a.1)
+    · simp only [ha, if_true]
+      obtain ⟨r, hr, hg⟩ := h
+      rcases List.mem_cons.mp hr with h1 | h1
+      · subst h1
+        rw [List.any_eq_true] at ha
+        obtain ⟨x, hx, hxa⟩ := ha
+        exact ⟨x, hx, by rw [← hg]; simpa using hxa⟩
+      · exact ih ⟨r, h1, hg⟩
+    · simp only [ha]
+      obtain ⟨r, hr, hg⟩ := h
+      rcases List.mem_cons.mp hr with h1 | h1
+      · subst h1; exact ⟨r, List.mem_cons_self, hg⟩
+      · obtain ⟨x, hx, hxg⟩ := ih ⟨r, h1, hg⟩
+        exact ⟨x, List.mem_cons_of_mem _ hx, hxg⟩
+
+/-- the LAST request of a key survives: an element with no later element of the same key -/
+theorem mem_dedupKey_of_last (l1 l2 : List (Seg × Nat)) (r : Seg × Nat) (h : ∀ r' ∈ l2, r'.1 ≠ r.1) :
+    r ∈ dedupKey (l1 ++ r :: l2) := by
+  induction l1 with
+  | nil =>
+    simp only [List.nil_append, dedupKey]
+    have : ¬ (dedupKey l2).any (fun r' => r'.1 = r.1) = true := by
+      rw [List.any_eq_true]
+      rintro ⟨x, hx, hxr⟩
+      exact h x (mem_of_mem_dedupKey l2 x hx) (by simpa using hxr)
+    simp [this]
+  | cons a l1 ih =>
+    simp only [List.cons_append, dedupKey]
+    by_cases ha : (dedupKey (l1 ++ r :: l2)).any (fun r' => r'.1 = a.1)
+    · simp only [ha, if_true]; exact ih
+    · simp only [ha]; exact List.mem_cons_of_mem _ ih
+
+theorem nodup_dedupKey_keys (l : List (Seg × Nat)) : ((dedupKey l).map Prod.fst).Nodup := by
+  induction l with
+  | nil => simp [dedupKey]
+  | cons a l ih =>
+    simp only [dedupKey]
+    by_cases ha : (dedupKey l).any (fun r' => r'.1 = a.1)
+    · rw [if_pos ha]; exact ih
+    · rw [if_neg ha, List.map_cons, List.nodup_cons]
+      refine ⟨?_, ih⟩
+      intro hm
+      apply ha
+      rw [List.mem_map] at hm
+      obtain ⟨x, hx, hxa⟩ := hm
+      rw [List.any_eq_true]
+      exact ⟨x, hx, by simpa using hxa⟩
+
+/-- the request list a query reads from -/
+def qsrsOf (d : Bool) (q : Query) : List (Seg × Nat) :=
+  if d then dedupKey (q.snapU ++ q.snapR) else q.snapU ++ q.snapR
+
 /-! ### one query -/
 
-structure QInv (s : St) (j : Nat) : Prop where
+structure QInv (d : Bool) (s : St) (j : Nat) : Prop where
   todoOk : (s.query j).started = true → (s.query j).todo = [.snapR] ∨ (s.query j).todo = []
   finOk : (s.query j).finished = true → (s.query j).started = true ∧ (s.query j).todo = []
   pre_le : (s.query j).started = true → ∀ g, (s.query j).pre g ≤ s.total g
   seenU : (s.query j).started = true → ∀ g k, k < (s.query j).pre g →
       (∃ n, (g, n) ∈ (s.query j).snapU ∧ k < n) ∨ k < s.rot g
+  /-- after both snapshots: the rotated snapshot's request for `g` (if there is one) covers the block;
+  otherwise the unrotated snapshot's request does -/
   seenR : (s.query j).started = true → (s.query j).todo = [] → ∀ g k, k < (s.query j).pre g →
-      (∃ n, (g, n) ∈ (s.query j).snapU ∧ k < n) ∨ (∃ n, (g, n) ∈ (s.query j).snapR ∧ k < n)
+      (∃ n, (g, n) ∈ (s.query j).snapR ∧ k < n) ∨
+      ((∃ n, (g, n) ∈ (s.query j).snapU ∧ k < n) ∧ ∀ r ∈ (s.query j).snapR, r.1 ≠ g)
   res : (s.query j).finished = true → ∀ g k, k < (s.query j).pre g → (g, k) ∈ (s.query j).result
   keysU : ((s.query j).snapU.map Prod.fst).Nodup
   keysR : ((s.query j).snapR.map Prod.fst).Nodup
@@ -100,14 +177,14 @@ structure QInv (s : St) (j : Nat) : Prop where
   posR : ∀ r ∈ (s.query j).snapR, r.2 ≠ 0
   resRrc : (s.query j).finished = true → (s.query j).kind = .rrc → (s.query j).result.Nodup
   resStats : (s.query j).finished = true → (s.query j).kind = .stats →
-      (s.query j).result = ((s.query j).snapU ++ (s.query j).snapR).flatMap (fun r => blocksOf r.1 r.2)
+      (s.query j).result = (qsrsOf d (s.query j)).flatMap (fun r => blocksOf r.1 r.2)
 
-theorem qinv_init (j : Nat) : QInv init j := by
+theorem qinv_init (j : Nat) : QInv d init j := by
   constructor <;> simp [init]
 
 /-- a label of another thread leaves query `j` alone -/
 theorem query_frame (s : St) (l : Label) (j : Nat) (h : ∀ k, l ≠ .q j k) :
-    (step Cfg.real s l).query j = s.query j := by
+    (step (Cfg.of d) s l).query j = s.query j := by
   cases l with
   | flush i =>
     simp only [step, flush]
@@ -118,7 +195,7 @@ theorem query_frame (s : St) (l : Label) (j : Nat) (h : ∀ k, l ≠ .q j k) :
     | nil =>
       by_cases hn : (s.store i).nblocks = 0
       · simp [hn]
-      · simp [hn, Cfg.real, applyRot]
+      · simp [hn, Cfg.of, applyRot]
     | cons a r => cases a <;> simp [applyRot]
   | q j' k =>
     have hj : j' ≠ j := by
@@ -129,13 +206,13 @@ theorem query_frame (s : St) (l : Label) (j : Nat) (h : ∀ k, l ≠ .q j k) :
     · simp [h1]
     · by_cases h2 : (s.query j').started
       · cases h3 : (s.query j').todo <;> simp [h1, h2, h3, upd, hj']
-      · simp [h1, h2, Cfg.real, upd, hj']
+      · simp [h1, h2, Cfg.of, upd, hj']
 
 theorem qinv_other (s : St) (hs : Inv s) (l : Label) (j : Nat) (h : ∀ k, l ≠ .q j k)
-    (hq : QInv s j) : QInv (step Cfg.real s l) j := by
-  have hf := query_frame s l j h
-  have htm := total_mono s l
-  have hrm := rot_mono s hs l
+    (hq : QInv d s j) : QInv d (step (Cfg.of d) s l) j := by
+  have hf := query_frame (d := d) s l j h
+  have htm := total_mono (d := d) s l
+  have hrm := rot_mono (d := d) s hs l
   constructor
   · rw [hf]; exact hq.todoOk
   · rw [hf]; exact hq.finOk
@@ -176,8 +253,65 @@ theorem rot_le_total (s : St) (hs : Inv s) (g : Seg) : s.rot g ≤ s.total g := 
       rw [h2.1]; omega
     · simp [h1, h2] at hr; omega
 
-theorem qinv_own (s : St) (hs : Inv s) (j : Nat) (k : Bool) (hq : QInv s j) :
-    QInv (step Cfg.real s (.q j k)) j := by
+theorem rot_eq_total_of_ne_zero (s : St) (hs : Inv s) (g : Seg) (h : s.rot g ≠ 0) : s.rot g = s.total g := by
+  obtain ⟨i, k⟩ := g
+  have hr := hs.rot_eq i k
+  by_cases h1 : k < (s.store i).seq
+  · simp [h1] at hr; exact hr
+  · by_cases h2 : k = (s.store i).seq ∧ added (s.store i)
+    · simp [h1, h2] at hr
+      have := hs.tot_eq i
+      rw [h2.1]; omega
+    · simp [h1, h2] at hr; exact absurd hr h
+
+theorem last_of_nodup (l : List (Seg × Nat)) (hn : (l.map Prod.fst).Nodup) (r : Seg × Nat) (hr : r ∈ l) :
+    ∃ l1 l2, l = l1 ++ r :: l2 ∧ ∀ r' ∈ l2, r'.1 ≠ r.1 := by
+  obtain ⟨l1, l2, rfl⟩ := List.append_of_mem hr
+  refine ⟨l1, l2, rfl, ?_⟩
+  intro r' hr' he
+  rw [List.map_append, List.map_cons, List.nodup_append] at hn
+  have := (List.nodup_cons.mp hn.2.1).1
+  apply this
+  rw [List.mem_map]
+  exact ⟨r', hr', he⟩
+
+/-- the request that covers a block (see `QInv.seenR`) is in the request list the query reads from -/
+theorem covering_mem_qsrs (d : Bool) (q : Query) (hU : (q.snapU.map Prod.fst).Nodup)
+    (hR : (q.snapR.map Prod.fst).Nodup) (g : Seg) (k : Nat)
+    (h : (∃ n, (g, n) ∈ q.snapR ∧ k < n) ∨ ((∃ n, (g, n) ∈ q.snapU ∧ k < n) ∧ ∀ r ∈ q.snapR, r.1 ≠ g)) :
+    ∃ n, (g, n) ∈ qsrsOf d q ∧ k < n := by
+  cases d with
+  | false =>
+    simp only [qsrsOf, Bool.false_eq_true, if_false]
+    rcases h with ⟨n, hn, hk⟩ | ⟨⟨n, hn, hk⟩, _⟩
+    · exact ⟨n, List.mem_append_right _ hn, hk⟩
+    · exact ⟨n, List.mem_append_left _ hn, hk⟩
+  | true =>
+    simp only [qsrsOf, if_true]
+    rcases h with ⟨n, hn, hk⟩ | ⟨⟨n, hn, hk⟩, hno⟩
+    · obtain ⟨l1, l2, he, hl⟩ := last_of_nodup q.snapR hR (g, n) hn
+      refine ⟨n, ?_, hk⟩
+      rw [he, ← List.append_assoc]
+      exact mem_dedupKey_of_last _ _ _ hl
+    · obtain ⟨l1, l2, he, hl⟩ := last_of_nodup q.snapU hU (g, n) hn
+      refine ⟨n, ?_, hk⟩
+      rw [he, List.append_assoc, List.cons_append]
+      apply mem_dedupKey_of_last
+      intro r' hr'
+      rcases List.mem_append.mp hr' with h1 | h1
+      · exact hl r' h1
+      · exact hno r' h1
+
+theorem readResult_eq (d : Bool) (s : St) (q : Query) :
+    readResult (Cfg.of d) s q =
+      match q.kind with
+      | .rrc => dedup ((qsrsOf d q).flatMap (fun r => blocksOf r.1 (nowCount s r.1)))
+      | .stats => (qsrsOf d q).flatMap (fun r => blocksOf r.1 r.2) := by
+  simp only [readResult, Cfg.of, qsrsOf]
+  cases q.kind <;> rfl
+
+theorem qinv_own (s : St) (hs : Inv s) (j : Nat) (k : Bool) (hq : QInv d s j) :
+    QInv d (step (Cfg.of d) s (.q j k)) j := by
   simp only [step, qStep]
   by_cases h1 : (s.query j).finished
   · simp [h1]; exact hq
@@ -191,14 +325,23 @@ theorem qinv_own (s : St) (hs : Inv s) (j : Nat) (k : Bool) (hq : QInv s j) :
         · intro _; exact hq.pre_le h2
         · intro _; exact hq.seenU h2
         · intro _ _ g n hn
-          rcases hq.seenU h2 g n hn with h4 | h4
-          · exact Or.inl h4
+          by_cases hr0 : s.rot g = 0
           · right
-            refine ⟨s.rot g, ?_, h4⟩
+            rcases hq.seenU h2 g n hn with h4 | h4
+            · refine ⟨h4, ?_⟩
+              intro r hr hg
+              obtain ⟨g', m⟩ := r
+              rw [mem_snapOf] at hr
+              simp only at hg
+              subst hg
+              exact hr.2.1 hr0
+            · omega
+          · left
+            have hrt := rot_eq_total_of_ne_zero s hs g hr0
+            have hple := hq.pre_le h2 g
+            refine ⟨s.rot g, ?_, by omega⟩
             rw [mem_snapOf]
-            refine ⟨?_, by omega, rfl⟩
-            have := rot_le_total s hs g
-            exact segs_of_pos s hs g n (by omega)
+            exact ⟨segs_of_pos s hs g n (by omega), hr0, rfl⟩
         · intro h; exact absurd h (by simp)
         · exact hq.keysU
         · exact nodup_snapOf_keys s s.rot hs.segs_nodup
@@ -219,7 +362,8 @@ theorem qinv_own (s : St) (hs : Inv s) (j : Nat) (k : Bool) (hq : QInv s j) :
         · intro _ _; exact hq.seenR h2 h3
         · intro _ g n hn
           have h4 := hq.seenR h2 h3 g n hn
-          simp only [readResult, Cfg.real, Bool.false_eq_true, if_false]
+          obtain ⟨m, hm, hlt⟩ := covering_mem_qsrs d (s.query j) hq.keysU hq.keysR g n h4
+          rw [readResult_eq]
           cases hk : (s.query j).kind with
           | rrc =>
             simp only
@@ -227,26 +371,25 @@ theorem qinv_own (s : St) (hs : Inv s) (j : Nat) (k : Bool) (hq : QInv s j) :
             have hvis : n < nowCount s g := by
               rw [nowCount_eq_total s hs g]
               exact Nat.lt_of_lt_of_le hn (hq.pre_le h2 g)
-            rcases h4 with ⟨m, hm, _⟩ | ⟨m, hm, _⟩
-            · exact ⟨(g, m), List.mem_append_left _ hm, (mem_blocksOf _ _ _ _).mpr ⟨rfl, hvis⟩⟩
-            · exact ⟨(g, m), List.mem_append_right _ hm, (mem_blocksOf _ _ _ _).mpr ⟨rfl, hvis⟩⟩
+            exact ⟨(g, m), hm, (mem_blocksOf _ _ _ _).mpr ⟨rfl, hvis⟩⟩
           | stats =>
             simp only
             rw [List.mem_flatMap]
-            rcases h4 with ⟨m, hm, hlt⟩ | ⟨m, hm, hlt⟩
-            · exact ⟨(g, m), List.mem_append_left _ hm, (mem_blocksOf _ _ _ _).mpr ⟨rfl, hlt⟩⟩
-            · exact ⟨(g, m), List.mem_append_right _ hm, (mem_blocksOf _ _ _ _).mpr ⟨rfl, hlt⟩⟩
+            exact ⟨(g, m), hm, (mem_blocksOf _ _ _ _).mpr ⟨rfl, hlt⟩⟩
         · exact hq.keysU
         · exact hq.keysR
         · exact hq.posU
         · exact hq.posR
         · intro _ hk
-          simp only [readResult, Cfg.real, Bool.false_eq_true, if_false, hk]
+          rw [readResult_eq]
+          simp only [hk]
           exact nodup_dedup _
         · intro _ hk
-          simp only [readResult, Cfg.real, Bool.false_eq_true, if_false, hk]
+          rw [readResult_eq]
+          simp only [hk]
+          rfl
     · -- first step: start + unrotated snapshot
-      simp only [h1, h2, if_false, Cfg.real, applySnap, Bool.false_eq_true]
+      simp only [h1, h2, if_false, Cfg.of, applySnap, Bool.false_eq_true]
       constructor <;> simp only [upd, if_true]
       · intro _; left; trivial
       · intro h; exact absurd h (by simp)
@@ -270,16 +413,16 @@ theorem qinv_own (s : St) (hs : Inv s) (j : Nat) (k : Bool) (hq : QInv s j) :
       · intro h; exact absurd h (by simp)
       · intro h; exact absurd h (by simp)
 
-theorem qinv_step (s : St) (hs : Inv s) (l : Label) (j : Nat) (hq : QInv s j) :
-    QInv (step Cfg.real s l) j := by
+theorem qinv_step (s : St) (hs : Inv s) (l : Label) (j : Nat) (hq : QInv d s j) :
+    QInv d (step (Cfg.of d) s l) j := by
   by_cases h : ∃ k, l = .q j k
   · obtain ⟨k, hk⟩ := h
     subst hk
     exact qinv_own s hs j k hq
   · exact qinv_other s hs l j (fun k hk => h ⟨k, hk⟩) hq
 
-theorem qinv_run (ls : List Label) (j : Nat) : QInv (run Cfg.real init ls) j :=
-  run_induction (fun s => QInv s j) init ls inv_init (qinv_init j)
+theorem qinv_run (ls : List Label) (j : Nat) : QInv d (run (Cfg.of d) init ls) j :=
+  run_induction (fun s => QInv d s j) init ls inv_init (qinv_init j)
     (fun s l hs hq => qinv_step s hs l j hq)
 
 end SigModel.Lemmas.C11
